@@ -416,6 +416,9 @@ func c14DynamicFailures(r *rand.Rand, base *model.Schema, tag string) []struct{ 
 		add("extend-implements-then-invalid", fmt.Sprintf("extend type TriZz implements AbZz { fresh%s: Int }\nunion BadUnionZz%s = Int", tag, tag))
 		add("extend-implements-then-invalid", fmt.Sprintf("extend type TriZz implements AbZz { fresh%s: Int }\nextend type TriZz { a: Int }", tag))
 		add("extend-implements-then-invalid", fmt.Sprintf("interface A0Zz%s { b: Int }\nextend type TriZz implements A0Zz%s { fresh%s: Int }\ntype EmptyZz%s { }", tag, tag, tag, tag))
+		// the interface of the failing document DESCRIBES a field the existing type has without a description
+		add("extend-implements-described-interface-then-invalid", fmt.Sprintf("interface DescZz%s { \"described by a document that was refused %s\" a: Int }\nextend type TriZz implements DescZz%s { fresh%s: Int }\nunion BadUnionZz%s = Int", tag, tag, tag, tag, tag))
+		add("extend-interface-with-described-field-then-invalid", fmt.Sprintf("extend interface CcZz { \"described by a document that was refused %s\" a: Int }\nunion BadUnionZz%s = Int", tag, tag))
 	}
 	if base.Type("OptZz") != nil {
 		add("extend-input-of-directive-argument-then-invalid", fmt.Sprintf("extend input OptZz { b%s: Int = 2 }\ntype EmptyZz%s { }", tag, tag))
